@@ -5,6 +5,7 @@ import YatimlModel.Gen.DumperResolvers
 import YatimlModel.Driver.JsonCmd
 import YatimlModel.Driver.NodeCmd
 import YatimlModel.Driver.LoadCmd
+import YatimlModel.Driver.DumpCmd
 /-!
 The model driver: one request per line on stdin, one answer per line on stdout.
 -/
@@ -21,6 +22,7 @@ def handleSexp (line : String) : String :=
   | some (.atom "load" :: args) => Driver.cmdLoad args
   | some (.atom "loaddoc" :: args) => Driver.cmdLoadDoc args
   | some (.atom "reqops" :: args) => Driver.cmdReqOps args
+  | some (.atom "represent" :: args) => Driver.cmdRepresent args
   | some _ => "bad-op"
   | none => "bad-syntax"
 
